@@ -27,7 +27,11 @@ CONSTANTS MaxCalls,      \* number of API calls issued by the host in MC
           AllowCrash,    \* environment may kill init / the host process at any time
           FixEatKill,    \* TRUE: init consumes the host's kill after an exec error that follows the ack
           ReapOnRefusal, \* TRUE: the sync-after-exec refusal path also runs the wait-all pass (as the code does)
-          FixDonePrio    \* TRUE: sendCmd / recvReply look at c.done before the two-way select
+          FixDonePrio,   \* TRUE: sendCmd / recvReply look at c.done before the two-way select
+          AllowDeadline, \* environment may let Ping's 3 s bound expire (init stalled: SIGSTOP, freezer, load)
+          DeadlineBreaks \* TRUE (as the code does): the bound is a socket deadline, its expiry fails the receive
+                         \* loop and marks the transport lost.  FALSE: Ping just returns an error on a timer --
+                         \* TLC then shows the late pong being consumed by the next call (NoDesync)
                          \* (FALSE/FALSE is the code as found; both were repaired with fix: commits)
 
 SimpleOps == {"ping", "conf", "open", "delete", "reset", "symlink"}
@@ -412,6 +416,17 @@ InitDies ==
   /\ UNCHANGED <<hostV, h2c, c2h, sockH, cRecvCh, cSL, cRL, cDone, scall, sSyncAfter, sSynced, bad>>
 InitKilled ==                                   \* process.Kill() of Destroy, or an external crash of init
   /\ (AllowCrash \/ (AllowDestroy /\ sockH = "closed")) /\ InitDies
+\* Ping bounds its wait (3 s).  As found: socket.SetDeadline -> the receive loop's RecvMsg fails -> c.done.
+\* The container is alive and will still answer: its pong stays on the wire, nobody reads it any more.
+HostRLDeadline ==
+  /\ AllowDeadline /\ DeadlineBreaks
+  /\ hostAlive /\ hop.kind = "ping" /\ hpc \in {"send", "recv1"} /\ hRL = <<"idle">> /\ sockH = "open"
+  /\ hDone' = TRUE /\ hRL' = <<"exit">>
+  /\ UNCHANGED <<hpc, call, hop, hret, hres, ctx, hSendCh, hRecvCh, hSL, hostAlive, netV, contV, bad>>
+HostPingTimer ==                                \* the alternative design: a timer in Ping, transport untouched
+  /\ AllowDeadline /\ ~DeadlineBreaks
+  /\ hostAlive /\ hop.kind = "ping" /\ hpc = "recv1" /\ Ret("err")
+  /\ UNCHANGED <<call, hop, hres, ctx, hSendCh, hRecvCh, hSL, hRL, hDone, hostAlive, netV, contV, bad>>
 HostDies ==                                     \* the controlling process is killed: its socket closes
   /\ hostAlive
   /\ hostAlive' = FALSE /\ sockH' = "closed"
@@ -439,7 +454,7 @@ ContSrvNext ==
   \/ ContPreforkErr \/ ContFork \/ ContStartErrEarly \/ ContStartSync \/ ContStartAfter
   \/ InitExit \/ ContStartFailed
   \/ ContSyncGot \/ ContExecOk \/ ContExecErr \/ ContEatKill \/ ContStartedKill \/ ContStartedChild
-EnvNext == ChildExit \/ ChildForks \/ CtxCancel \/ DestroyClose \/ InitKilled \/ HostCrash \/ Pdeathsig
+EnvNext == ChildExit \/ ChildForks \/ CtxCancel \/ DestroyClose \/ InitKilled \/ HostCrash \/ Pdeathsig \/ HostRLDeadline \/ HostPingTimer
 
 SysNext == HostApiNext \/ HostLoopNext \/ ContLoopNext \/ ContSrvNext
 Next == SysNext \/ EnvNext
